@@ -177,6 +177,7 @@ def Skeleton.pinned : Skeleton where
   clNilErrorViaIsNil := true
   msgCodecPlain := true
   linkReturnsOnlyFatalSlot := true
+  locksBalanced := true
   ucNoWaiting := true
   accesses := [
     { var := "Broadcaster.channels", site := "Close", write := false, locks := ["b.lock"], order := "" },
